@@ -25,11 +25,20 @@ func c06Program(a, b string) string {
 	return c06Prelude + fmt.Sprintf("va = %s; vb = %s\n[va == vb, vb == va, va != vb, va in [vb], sw(va, vb), ((va <= vb) && (va >= vb)), vb in [va], sw(vb, va)]", a, b)
 }
 
+// containers that share storage: views of one list at the same and at different offsets and lengths,
+// beside fresh lists with the same contents - equality is structural, never a matter of identity
+var c06Shared = []string{"sa", "sa[:2]", "sa[:0]", "sa[1:]", "sa[0:3]", "sa[:1]", "[1, 2]", "[1, 2, 3]", "[]", "[2, 3]", "[1]", "sm", `{"a": 1}`, "[sa]", "[sa[:2]]", "[[1, 2]]"}
+
 func c06Product() []string {
 	var out []string
 	for _, a := range c06Pool {
 		for _, b := range c06Pool {
 			out = append(out, c06Program(a, b))
+		}
+	}
+	for _, a := range c06Shared {
+		for _, b := range c06Shared {
+			out = append(out, "sa = [1, 2, 3]; sm = {\"a\": 1}\n"+c06Program(a, b))
 		}
 	}
 	return out
@@ -53,16 +62,35 @@ func bigIntLit(x string) bool {
 	return len(n) > 2 && n[0] >= '0' && n[0] <= '9' && !strings.ContainsAny(x, ".e/")
 }
 
-func c05Program(a, b string) string {
+// c05Shapes: how the two operands reach the operator - the result must not depend on it.
+var c05Shapes = []struct{ setup, x, y string }{
+	{"va = %s; vb = %s", "va", "vb"},                                      // variables
+	{"e = [%s, %s]", "e[0]", "e[1]"},                                       // list elements
+	{"e = [[%s], [%s]]", "e[0][0]", "e[1][0]"},                             // nested elements
+	{"fa = func() { return %s }; fb = func() { return %s }", "fa()", "fb()"}, // function results
+	{"m = {\"a\": %s, \"b\": %s}", "m.a", "m[\"b\"]"},                     // map entries
+	{"", "", ""}, // the literals themselves
+}
+
+func c05Program(a, b string) string { return c05ProgramShape(a, b, 0) }
+
+func c05ProgramShape(a, b string, shape int) string {
+	sh := c05Shapes[shape]
+	x, y, setup := sh.x, sh.y, ""
+	if sh.setup == "" {
+		x, y = "("+a+")", "("+b+")"
+	} else {
+		setup = fmt.Sprintf(sh.setup, a, b) + "\n"
+	}
 	var parts []string
 	for _, op := range c05BinOps {
 		if op == "*" && isStrLit(a) && bigIntLit(b) {
 			continue // string repetition by a huge count: an astronomically large allocation (outside C05)
 		}
-		parts = append(parts, fmt.Sprintf("((va %s vb) ?? \"E\")", op))
+		parts = append(parts, fmt.Sprintf("((%s %s %s) ?? \"E\")", x, op, y))
 	}
-	parts = append(parts, `((-va) ?? "E")`, `((^va) ?? "E")`, `((!va) ?? "E")`)
-	return fmt.Sprintf("va = %s; vb = %s\n[%s]", a, b, strings.Join(parts, ", "))
+	parts = append(parts, fmt.Sprintf(`((-%s) ?? "E")`, x), fmt.Sprintf(`((^%s) ?? "E")`, x), fmt.Sprintf(`((!%s) ?? "E")`, x))
+	return setup + "[" + strings.Join(parts, ", ") + "]"
 }
 
 func c05Product(r *Rand, limit int) []string {
@@ -98,11 +126,32 @@ func c05Product(r *Rand, limit int) []string {
 			out = append(out, c05Program(a, b))
 		}
 	}
+	// the same pairs with the operands arriving as elements, nested elements, function results, map
+	// entries or bare literals: every pair under every shape when the budget allows (thorough), one
+	// shape for a third of the pairs otherwise
+	for _, a := range pool {
+		for _, b := range pool {
+			if limit > 50000 {
+				for sh := 1; sh < len(c05Shapes); sh++ {
+					out = append(out, c05ProgramShape(a, b, sh))
+				}
+			} else if r.Chance(1, 3) {
+				out = append(out, c05ProgramShape(a, b, 1+r.Intn(len(c05Shapes)-1)))
+			}
+		}
+	}
 	// random expression trees over the same leaves
 	var tree func(d int) string
 	tree = func(d int) string {
 		if d <= 0 || r.Chance(1, 4) {
-			return pool[r.Intn(len(pool))]
+			leaf := pool[r.Intn(len(pool))]
+			switch r.Intn(8) {
+			case 0:
+				return "[" + leaf + "][0]"
+			case 1:
+				return "{\"k\": " + leaf + "}.k"
+			}
+			return leaf
 		}
 		if r.Chance(1, 8) {
 			return []string{"-", "^", "!"}[r.Intn(3)] + "(" + tree(d-1) + ")"
